@@ -16,7 +16,7 @@ import logging
 from sim import devices
 from sim.canon import Log, dec_table, enc, canon_rows, canon_row
 from sim.core import outcome, ddmin_lists, draw_config
-from sim.devices import SimStore, SimClock, SimTable
+from sim.devices import SimStore, SimClock, SimTable, SimDiskFull
 from sim.gen import gen_table, FIELDS
 from sim.loader import load_petl
 from sim.sched import Sched, Violation, gen_schedule
@@ -135,11 +135,12 @@ def gen_case(rng, tier, g):
         n = len(table) - 1
         history = rng.choice(['full', 'full', 'partial-close-full',
                               'partial-drop-full', 'full-full',
-                              'partial-partial-full'])
+                              'partial-partial-full', 'sinkfail-full'])
         return {'prop': PROP, 'machine': 'tee', 'fmt': fmt, 'args': args,
                 'config': draw_config(rng, 0.25, exclude=('sort_buffersize',)),
                 'table': table, 'history': history,
                 'partial': rng.randint(0, n + 1),
+                'budget': rng.choice([0, 1, 5, 20, 60, 200]),
                 'rowtype': rng.choice(['copy', 'alias'])}
     if m < 0.8:
         kind = rng.choice(['progress', 'progress', 'log_progress', 'clock'])
@@ -306,8 +307,39 @@ def _run_tee(e, case, log):
             raise _Bad('handle-left-open', '%s: %d handles open after an '
                        'abandoned pass (%s)' % (what, store.open_handles,
                                                 how))
+    def sinkfail(budget):
+        # the sink runs out of space part-way: the pass may fail with that
+        # very error (nothing else), must not leave the handle open, and the
+        # view must be as good as new afterwards
+        store.write_budget = budget
+        it = iter(view)
+        got = []
+        try:
+            try:
+                for r in it:
+                    got.append(canon_row(r))
+            except SimDiskFull:
+                pass
+            except Exception as ex:
+                raise _Bad('tee-raised', '%s raised %s: %s when its sink '
+                           'failed with ENOSPC' % (what, type(ex).__name__,
+                                                   ex))
+        finally:
+            store.write_budget = None
+        if got != want_rows[:len(got)]:
+            raise _Bad('rows-differ', '%s pass with a failing sink: yielded '
+                       '%r, the wrapped table starts %r'
+                       % (what, got, want_rows[:len(got)]))
+        del it
+        gc.collect()
+        if store.open_handles != 0:
+            raise _Bad('handle-left-open', '%s: %d handles open after a '
+                       'pass whose sink failed' % (what, store.open_handles))
     h = case['history']
-    if h == 'full':
+    if h == 'sinkfail-full':
+        sinkfail(case.get('budget', 0))
+        full('pass after one whose sink failed')
+    elif h == 'full':
         full('pass 1')
     elif h == 'full-full':
         full('pass 1')
